@@ -817,7 +817,12 @@ impl CKBProtocolHandler for Relayer {
             Ok(msg) => {
                 let item = msg.to_enum();
                 if let packed::RelayMessageUnionReader::CompactBlock(ref reader) = item {
-                    if reader.count_extra_fields() > 1 {
+                    // the only extra field a compact block may carry is the extension, a `Bytes`
+                    let malformed_extension =
+                        reader.to_entity().extra_field(0).is_some_and(|data| {
+                            <packed::BytesReader as Reader>::verify(&data, false).is_err()
+                        });
+                    if reader.count_extra_fields() > 1 || malformed_extension {
                         info_target!(
                             crate::LOG_TARGET_RELAY,
                             "Peer {} sends us a malformed message: \
